@@ -291,6 +291,13 @@ class GenerateWasmVisitor(Visitor.DefaultVisitor):
             for instruction in basicBlock.Instructions:
                 self.v_Visit(instruction, ctx)
 
+        if not function.Type.ReturnType.IsVoid():
+            # Falling off the end of a function that has to return a value
+            # must not leave the body without a result
+            c.AddInstruction(
+                WebAssembly.Instruction(WebAssembly.opcodes["unreachable"])
+            )
+
         ctx.OnLeaveFunction()
 
 
